@@ -443,6 +443,19 @@ Theorem C03_strict_history_fields :
       chain 0 (effective (0, 0) (s_spans r)) (lenN (sh_bytes sh)).
 Proof. exact strict_load_history_fields. Qed.
 
+(* per identifier (n, g): what the reader recovers is what the NEWEST revision whose cross-reference section lists
+   number n has under (n, g) -- nothing when that revision holds the number under another generation (the older
+   generations are gone: one entry per number) or when no section lists n.  [newest_listing] walks the revisions
+   newest first; an item = (numbers listed by the section, normal forms of the revision's objects). *)
+Theorem C03_history_newest_wins :
+  forall sh n g, sh_ok sh -> sh_strict sh ->
+    lookup (s_objects (sdoc_of_history sh)) (n, g) =
+    match newest_listing (h_list h_merge_item (sh_hist sh)) n with
+    | Some objs => lookup objs (n, g)
+    | None => None
+    end.
+Proof. exact history_newest_wins. Qed.
+
 (* (5.6) the induction step through the MODELLED API: from any history and what the loader returned for its
    newest file, create_from + any sequence of modelled edits (set_object, add_object,
    opt_clone_object_to_new_document, get_or_create_resources, add_xobject) + IncrementalDocument::save succeeds
@@ -531,6 +544,7 @@ Print Assumptions C03_history_shape.
 Print Assumptions C03_strict_history.
 Print Assumptions C03_strict_lopdf_history.
 Print Assumptions C03_strict_history_fields.
+Print Assumptions C03_history_newest_wins.
 Print Assumptions C03_history_update_step.
 Print Assumptions C03_all_bytes_accounted_history.
 Print Assumptions C03_history_example.
